@@ -2,7 +2,7 @@
 
 All 14 predefined operators x all 56 predefined basic / pair / Fortran-named / C++ datatypes of smpi.h x all ordered operand
 pairs from the extreme-value alphabets ({min,-1,0,1,2,max} signed, {0,1,2,max} unsigned, {-1.5,0,1,1e30} floating,
-{false,true}, {-1.5,0,1,2.5}^2 complex, value alphabet x index {0,1} for pair types) x counts {0,1,3}, through
+{false,true}, {-1.5,0,1,2.5}^2 complex, value alphabet x index {0,1} for pair types) x counts {0,1,3} (quick) / {0,1,2,3,5,8} (thorough), through
 MPI_Reduce_local (1 rank), a 2-rank MPI_Allreduce, and (MPI_REPLACE / MPI_NO_OP, which MPI only allows in RMA)
 MPI_Accumulate / MPI_Get_accumulate on a 2-rank window; every buffer framed by 64 canary bytes.
 Oracle: element-wise MPI definitions written with C++ operators on the machine type of the datatype's category and reported
@@ -15,6 +15,8 @@ import common, mpix
 MODES = [("local", 1), ("allreduce", 2), ("rma", 2)]
 COUNTERS = ["cases", "elems", "unconstrained", "rejected_cases", "accepted_without_natural_meaning", "ties"]
 NPAIRS = 14 * 56
+# counts are enumerated in this order inside every (operator, type) pair: the first failing case of a pair is the same in both tiers
+COUNTS = {"quick": "0,1,3", "thorough": "0,1,3,2,5,8"}
 DESCR = {
     "wrong-result": "the operator's result differs from the element-wise MPI definition",
     "valid-pair-rejected": "an (operator, datatype) pair that MPI requires is rejected with an error code",
@@ -42,10 +44,10 @@ def _key(d):
 
 def _run_mode(job):
     """Runs all pairs of one mode, resuming after every pair that kills the simulation."""
-    tmp, binary, mode, np_, first, last, timeout = job
+    tmp, binary, mode, np_, first, last, timeout, counts = job
     outs, aborts = [], []
     while first <= last:
-        rc, out, err = mpix.smpirun(tmp, binary, np_, [mode, first, last, -1], timeout=timeout)
+        rc, out, err = mpix.smpirun(tmp, binary, np_, [mode, first, last, -1, counts], timeout=timeout)
         outs.append(out)
         if rc == 0:
             break
@@ -64,7 +66,7 @@ def _run_mode(job):
 
 def _rerun(tmp, binary, case):
     np_ = dict(MODES)[case["via"]]
-    rc, out, err = mpix.smpirun(tmp, binary, np_, [case["via"], case["pair"], case["pair"], case["case"]], timeout=120)
+    rc, out, err = mpix.smpirun(tmp, binary, np_, [case["via"], case["pair"], case["pair"], case["case"], case["counts"]], timeout=120)
     return rc, [d for t, d in mpix.records(out) if t == "V"], err
 
 
@@ -76,7 +78,8 @@ def run(ctx):
     # the whole grid is one bound (quick == thorough); one job per (mode, operator) so that the cores are used and a pair that
     # aborts only costs the re-run of the rest of its operator
     NT = NPAIRS // 14
-    jobs = [(tmp, binary, m, n, o * NT, (o + 1) * NT - 1, max(120, ctx.deadline.left() + 300))
+    counts = COUNTS[ctx.tier]
+    jobs = [(tmp, binary, m, n, o * NT, (o + 1) * NT - 1, max(120, ctx.deadline.left() + 300), counts)
             for m, n in MODES for o in range(14) if m != "rma" or o >= 12]
     with cf.ThreadPoolExecutor(max_workers=common.NCPU) as ex:
         res = list(ex.map(_run_mode, jobs))
@@ -103,23 +106,37 @@ def run(ctx):
         if d is None:
             common.log("C31: kind %s counted but no record kept" % kind)
             sys.exit(2)
-        case = {"via": d["via"], "pair": int(d["pair"]), "case": int(d["case"]), "kind": kind, "record": d}
+        case = {"via": d["via"], "pair": int(d["pair"]), "case": int(d["case"]), "kind": kind, "record": d, "counts": counts}
         todo.append((_key(d), d, (lambda c: (lambda: _rerun(tmp, binary, c)))(case)))
         det = " ".join("%s=%s" % (a, d[a]) for a in ("elem", "in", "inout", "got", "exp", "fetched", "rc") if a in d)
         violations.append(common.Violation(_key(d), "%s; first of %d failing cases of this (operator, type) (%s)" % (
             DESCR.get(kind.split("/")[0], kind), k["count"], det), case))
-    mpix.confirm_all("C31", todo)
-    n_abort_ok, abort_cases = 0, []
+    # A kernel that reads past the elements (wrong C type) makes MPI_Allreduce results depend on heap garbage: such a record may
+    # not repeat identically. It is dropped only if the same (operator, type) has a violation that does repeat; otherwise exit 2.
+    bad = mpix.confirm_all("C31", todo, fatal=False)
+    unstable = []
+    if bad:
+        badkeys = {k for k, _ in bad}
+        good_pairs = {(v.case["record"]["op"], v.case["record"]["type"]) for v in violations if v.key not in badkeys}
+        for k, msg in bad:
+            v = next(v for v in violations if v.key == k)
+            if (v.case["record"]["op"], v.case["record"]["type"]) not in good_pairs:
+                common.log(msg)
+                sys.exit(2)
+            unstable.append(k)
+        violations = [v for v in violations if v.key not in badkeys]
+    n_abort_ok, abort_cases, abort_ok = 0, [], set()
     for a in aborts:
         optype = "Failed to apply" in a["msg"]
         if a.get("valid") == "1" or not optype:
             kind = "valid-pair-aborts" if optype else "abort-unexpected"
             key = "C31 %s via=%s op=%s type=%s" % (kind, a["via"], a["op"], a["type"])
-            case = {"via": a["via"], "pair": int(a["pair"]), "case": -1, "kind": "abort"}
+            case = {"via": a["via"], "pair": int(a["pair"]), "case": -1, "kind": "abort", "counts": counts}
             abort_cases.append((key, case))
             violations.append(common.Violation(key, "%s: %s" % (DESCR[kind], a["msg"].strip()[-200:]), case))
         else:
             n_abort_ok += 1
+            abort_ok.add("%s/%s" % (a["op"], a["type"]))
 
     def _abort_again(kc):
         key, case = kc
@@ -144,15 +161,17 @@ def run(ctx):
             {"via": "allreduce", "op": "MPI_PROD", "type": "MPI_C_FLOAT_COMPLEX", "count": 3, "rank0": "(-1.5,2.5)", "rank1": "(1,-1.5)"},
             {"via": "rma", "op": "MPI_NO_OP", "type": "MPI_INT64_T", "count": 3, "origin": "min", "target": "max", "fetched_expected": "max"},
         ],
-        "exhaustive": complete,
+        "exhaustive": complete, "counts": counts,
         "operator_type_pairs": len(table), "pairs_mpi_requires": sum(1 for d in table.values() if d["valid"] == "1"),
         "per_mode": per_mode, "elements_compared": agg.tot["elems"],
         "cases_rejected_with_error_code": agg.tot["rejected_cases"],
         "pairs_rejected_by_abort_with_operator_type_message": n_abort_ok,
+        "info_optional_pairs_refused_by_abort": sorted(abort_ok),
         "info_elements_accepted_without_natural_meaning": agg.tot["accepted_without_natural_meaning"],
         "info_types_skipped_no_machine_type": sorted(skipped),
         "info_type_sizes_differ_from_mpi": sizes_unexpected,
         "violation_kinds": {k: v["count"] for k, v in agg.kinds.items()},
+        "unstable_records_dropped_because_same_pair_fails_reproducibly": unstable,
     }
     mpix.cleanup(tmp)
     if nontriv < 2:
